@@ -509,7 +509,7 @@ def run_delete_key(run, P):
             n += 1
             run.instance('R-OBS-RST', '%s: deletes the observer a loop is looking at' % name)
         solve(f, Env(), on_event, None, keys, R, key_fn=lambda e: (tuple(sorted((k, v) for k, v in e.atoms.items() if any(x in k for x in xvars))), tuple(sorted((k, v) for k, v in e.ts.items() if k.startswith('via:')))), max_envs=128)
-    run.require(n >= (2 if run.cfg == 'base' else 0) or run.fixture_mode, 'R-OBS-RST(whose observer): fewer than 2 deletions of a looked-at observer found')
+    run.require_count(n >= (2 if run.cfg == 'base' else 0) or run.fixture_mode, 'R-OBS-RST(whose observer): fewer than 2 deletions of a looked-at observer found')
 
 
 def run_delete_all(run, P, fname='coap_delete_observers'):
@@ -614,4 +614,4 @@ def run_fail_count(run, P, field='fail_cnt'):
         n += len(tests)
         run.instance('R-OBS-RST', '%s: %s is stepped before it is compared with the limit' % (name, field))
         solve(f, Env(), on_event, None, keys, R, key_fn=lambda e: e.ts.get('stepped'), on_branch=on_branch)
-    run.require(n >= 1 or run.fixture_mode or run.cfg != 'base', 'R-OBS-RST(failure count): no test of %s found (expected coap_remove_failed_observers)' % field)
+    run.require_count(n >= 1 or run.fixture_mode or run.cfg != 'base', 'R-OBS-RST(failure count): no test of %s found (expected coap_remove_failed_observers)' % field)
